@@ -287,6 +287,34 @@ seed("c10-reset-skips-envelope", "C10", "R-tls-success-effects", "conn.go",
 	c.session.Reset()
 
 	c.fromReceived = false""", "reset() keeps the envelope when no session exists (after STARTTLS)")
+seed("c09-client-empty-resp", "C09", "R-cauth-empty-response", "client.go",
+"""		if resp == nil {
+			break
+		}""", """		if len(resp) == 0 {
+			break
+		}""", "empty non-nil SASL response ends the exchange")
+seed("c10-ehlo-stale-ext", "C10", "R-ctls-rehello", "client.go",
+"""	ext := make(map[string]string)
+	extList := strings.Split(msg, "\\n")
+	if len(extList) > 1 {
+		extList = extList[1:]""", """	extList := strings.Split(msg, "\\n")
+	if len(extList) <= 1 {
+		return nil
+	}
+	ext := make(map[string]string)
+	if len(extList) > 1 {
+		extList = extList[1:]""", "EHLO without extension lines keeps the old map")
+seed("c13-reset-keeps-collector", "C13", "R-status-frozen", "conn.go",
+"""	c.bdatStatus = nil
+	c.bytesReceived = 0""", """	c.bytesReceived = 0""", "reset keeps the BDAT status collector")
+seed("c06-size-64bit", "C06", "R-size-param", "conn.go",
+"""			size, err := strconv.ParseUint(value, 10, 32)
+			if err != nil {
+				c.writeResponse(501, EnhancedCode{5, 5, 4}, "Unable to parse SIZE as an integer")""", """			size, err := strconv.ParseUint(value, 10, 64)
+			if err != nil {
+				c.writeResponse(501, EnhancedCode{5, 5, 4}, "Unable to parse SIZE as an integer")""", "SIZE >= 2^63 wraps negative")
+seed("c12-authallowed-no-tlsconfig", "C12", "R-authallowed-def", "conn.go",
+"	return isTLS || c.server.AllowInsecureAuth", "	return isTLS || c.server.AllowInsecureAuth || c.server.TLSConfig == nil", "AUTH offered in plaintext when TLS is not configured")
 seed("c12-requiretls-plain", "C12", "R-caps-table", "conn.go",
 "if _, isTLS := c.TLSConnectionState(); isTLS && c.server.EnableREQUIRETLS {", "if c.server.EnableREQUIRETLS {", "REQUIRETLS advertised in plaintext")
 seed("c12-size-value", "C12", "R-caps-table", "conn.go",
